@@ -987,7 +987,7 @@ impl Property for C16 {
         }
     }
     fn rule(&self) -> &'static str {
-        "one case = project whose build targets watch directories (with and without extension filters; one target may watch the whole project directory, so zinoma's own .zinoma writes are seen by the watcher) + a --watch session whose bursts are applied one per idle point: irrelevant changes (other extensions, anything under .zinoma, `x~`, `.x.swp`, `.x.swx`), hostile names (invalid UTF-8, newline, only dots, a name equal to an extension), relevant changes; create / in-place modify / rename / delete. Oracle per burst, using the documented relevance rule re-implemented in the driver: a burst relevant to no target is followed by no script start and no skip evaluation before the next idle point; a burst relevant to T is followed by an evaluation of T (watcher still alive, whatever names were seen before); the session becomes idle (no rebuild loop). distinct_nontrivial = distinct order hashes among sessions that applied at least one irrelevant or hostile change"
+        "one case = project whose build targets watch directories (with and without extension filters; one target may watch the whole project directory, so zinoma's own .zinoma writes are seen by the watcher) + a --watch session whose bursts are applied one per idle point: irrelevant changes (other extensions, anything under .zinoma, `x~`, `.x.swp`, `.x.swx`), hostile names (invalid UTF-8, newline, only dots, a name equal to an extension), relevant changes; create / in-place modify / rename / delete. Oracle per burst, using the documented relevance rule re-implemented in the driver: a burst relevant to no target is followed by no script start and no skip evaluation before the next idle point; a burst relevant to T is followed by an evaluation of T (watcher still alive, whatever names were seen before); the session becomes idle (no rebuild loop). Also generated: directories declared as `<dir>/up/..` or through a link (`jump/..`), touches of watched directories (neutral for the relevance clauses), names that merely contain `.zinoma`, a path-less rescan event after a kernel queue overflow (fault notify.rescan), a first run that fails while one of its inputs is saved again, a target that writes generated sources into its own watched directory. distinct_nontrivial = distinct order hashes among sessions that applied at least one irrelevant or hostile change"
     }
     fn assumptions(&self) -> Vec<&'static str> {
         vec!["a panic inside the notification callback kills that watcher for good, as it kills the real `notify-rs inotify loop` thread"]
